@@ -190,7 +190,7 @@ func (u *Unit) execInstr(fr *Frame, st *State, in ssa.Instruction) {
 			fmt.Sscanf(s.Origin, "chan:%d", &id)
 			u.sends[id] = append(u.sends[id], sendRec{st.pc, v})
 		}
-		u.event(fr, st, "send", map[string]Val{"value": v}, where)
+		u.event(fr, st, "send", map[string]Val{"value": v, "blocking": &Scalar{T: TTrue, Typ: types.Typ[types.Bool]}}, where)
 
 	case *ssa.Select:
 		u.execSelect(fr, st, x, where)
@@ -666,6 +666,28 @@ func (u *Unit) execSelect(fr *Frame, st *State, x *ssa.Select, where string) {
 	recvOK := TTrue
 	base := st.pc
 	for i, s := range x.States {
+		if s.Dir == types.SendOnly {
+			// a send case: the send happens iff this case is chosen
+			sub := st.clone()
+			sub.pc = And(base, Eq(idx, IntLit(int64(i))))
+			ch := u.get(fr, s.Chan)
+			v := u.get(fr, s.Send)
+			if cs, ok := ch.(*Scalar); ok && strings.HasPrefix(cs.Origin, "chan:") {
+				var id int
+				fmt.Sscanf(cs.Origin, "chan:%d", &id)
+				u.sends[id] = append(u.sends[id], sendRec{sub.pc, v})
+			}
+			u.event(fr, sub, "send", map[string]Val{"value": v, "blocking": &Scalar{T: BoolLit(x.Blocking), Typ: types.Typ[types.Bool]}}, where)
+			for k, g := range sub.ghost {
+				if og, had := st.ghost[k]; !had || og.S != g.S {
+					if !had {
+						og = u.ghostDefault(k)
+					}
+					st.ghost[k] = u.define(Ite(Eq(idx, IntLit(int64(i))), g, og), "g")
+				}
+			}
+			continue
+		}
 		if s.Dir != types.RecvOnly {
 			continue
 		}
@@ -689,9 +711,8 @@ func (u *Unit) execSelect(fr *Frame, st *State, x *ssa.Select, where string) {
 	vs[1] = &Scalar{T: recvOK, Typ: types.Typ[types.Bool]}
 	hasAfter := false
 	hasTicker := false
-	for i, s := range x.States {
+	for _, s := range x.States {
 		if s.Dir == types.SendOnly {
-			u.note("select with send case %d in %s", i, fr.key)
 			continue
 		}
 		if cs, ok := u.get(fr, s.Chan).(*Scalar); ok {
